@@ -78,6 +78,7 @@ type Frame struct {
 	Entry  *State // entry state (for old())
 	Params map[string]*Val
 	ParamAlias map[string]string // contract-header parameter name -> source parameter name (top-level frames)
+	deferredAt map[int][]*Obligation // at-call clauses matched inside inlined helpers (used when the function itself has no call site)
 	// loop bookkeeping
 	loops      map[*ssa.BasicBlock]*loopInfo
 	Returns    []retPoint
@@ -466,6 +467,11 @@ func (fr *Frame) findLoops() {
 		}
 	}
 	sort.Slice(headers, func(i, j int) bool { return headers[i].Index < headers[j].Index })
+	if fr.Top && fr.Con != nil && len(fr.Con.Loops) > 0 {
+		if was, now, changed := loopStructureChanged(fn); changed {
+			specFail("the function had %d loops when its loop contracts were written and has %d now: loop contracts are keyed by ordinal and have to be re-anchored (checks/aux/locals.json)", was, now)
+		}
+	}
 	for i, h := range headers {
 		fr.loops[h].ordinal = i + 1
 		if fr.Con != nil {
